@@ -44,6 +44,33 @@ def lock_stages(profile, quick_cases, thorough_cases, thorough_r10=None):
     return {"quick": q, "thorough": t}
 
 
+THREAD_GEN = ("cases = (capacity variant, history of thread starts/exits with generated probe starts (hash of the thread id), "
+              "GetThreadID/GetHeartBeat calls, epoch-guard creation/moves/destruction, coordinator forwards incl. bulk positioning next to "
+              "256-epoch node boundaries, schedule with step-level preemptions incl. inside the thread-exit destructors) drawn from rapidcheck "
+              "generators, each executed in a forked child; distinct = distinct 64-bit FNV hash of the case text; non-trivial = ")
+RULES.update({
+    "C05": THREAD_GEN + "two threads with the same probe start were claiming an ID at the same time, or a probe wrapped around the table",
+    "C14": THREAD_GEN + "a claim overlapped another thread's exit cleanup, or a thread found every ID taken and had to wait",
+    "C15": THREAD_GEN + "an ID was re-issued while its previous owner was inside exit cleanup or after it exited",
+    "C04": THREAD_GEN + "a forward ran while >= 1 guard of another thread was alive and a thread start/exit happened in the case",
+    "C16": THREAD_GEN + "a quiescent forward directly followed a period with pinned epochs, or a forward crossed a 256-epoch node boundary",
+    "C17": THREAD_GEN + "a forward completed while a worker was inside GetProtectedEpochs, or a list node was retired while a guard was alive",
+})
+
+THREAD_ASSUME = [
+    "only sequentially consistent interleavings; scheduling points before every atomic operation and after every atomic write, thread-exit destructors run under the scheduler",
+    "shared_ptr/weak_ptr control blocks and the non-atomic fields of EpochManager are not instrumented (no scheduling points inside them)",
+    "hash(thread::id) is replaced by a generated probe start; capacities are compile-time: variants 1,2,3,4,8",
+    "threads hold at most one epoch guard at a time; thread 0 is the only caller of ForwardGlobalEpoch",
+]
+
+
+def thread_stages(profile, caps_quick, quick_cases, caps_thorough, thorough_cases):
+    q = [{"variant": f"thread_c{c}", "binary": "thread_harness", "profile": profile, "cases_per_worker": quick_cases, "max_seconds": 120} for c in caps_quick]
+    t = [{"variant": f"thread_c{c}", "binary": "thread_harness", "profile": profile, "cases_per_worker": thorough_cases, "max_seconds": 900} for c in caps_thorough]
+    return {"quick": q, "thorough": t}
+
+
 PROPS = {
     "C01": {"kinds": ["EXCLUSION", "EXCLUSION-CONV", "TORN"], "stages": lock_stages("C01", 2500, 40000), "assumptions": LOCK_ASSUME},
     "C02": {"kinds": ["STUCK", "FINAL_BUSY", "CRASH"], "stages": lock_stages("C02", 2500, 40000), "assumptions": LOCK_ASSUME},
@@ -58,6 +85,15 @@ PROPS = {
     "C10": {"kinds": ["GAP", "EXCLUSION-CONV"], "stages": lock_stages("C10", 2500, 40000), "assumptions": LOCK_ASSUME},
     "C11": {"kinds": ["ORDER"], "stages": lock_stages("C11", 2500, 40000), "assumptions": LOCK_ASSUME},
     "C12": {"kinds": ["LEAK", "NODE_BOUND", "CRASH-UAF"], "stages": lock_stages("C12", 2500, 40000), "assumptions": LOCK_ASSUME},
+    "C05": {"kinds": ["IDRANGE", "IDSTABLE", "IDUNIQUE"], "stages": thread_stages("C05", [1, 2, 3, 4, 8], 250, [1, 2, 3, 4, 8], 5000),
+            "assumptions": THREAD_ASSUME},
+    "C14": {"kinds": ["STUCK", "FINAL_BUSY"], "stages": thread_stages("C14", [1, 2, 3, 4, 8], 250, [1, 2, 3, 4, 8], 5000), "assumptions": THREAD_ASSUME},
+    "C15": {"kinds": ["HB-REUSE", "HB-LIVE", "HB-EXIT"], "stages": thread_stages("C15", [2, 3, 4], 400, [1, 2, 3, 4, 8], 5000), "assumptions": THREAD_ASSUME},
+    "C04": {"kinds": ["PIN-LIST", "PIN-MIN"], "stages": thread_stages("C04", [2, 3, 4], 300, [2, 3, 4, 8], 4000), "assumptions": THREAD_ASSUME},
+    "C16": {"kinds": ["EPOCH-STEP", "CUR-DECREASED", "MIN-GT-CUR", "QUIESCENT-LIST", "QUIESCENT-MIN"],
+            "stages": thread_stages("C16", [2, 3, 4], 300, [2, 3, 4, 8], 4000), "assumptions": THREAD_ASSUME},
+    "C17": {"kinds": ["LIST-OWNER", "LIST-ORDER", "LIST-PREV", "LIST-STABLE", "GUARD-EPOCH", "GUARD-MOVE", "CRASH-UAF", "CRASH"],
+            "stages": thread_stages("C17", [2, 3, 4], 300, [2, 3, 4, 8], 4000), "assumptions": THREAD_ASSUME},
     "C13": {"kinds": ["PREP-STACK", "PREP-X", "PREP-VER", "PREP-VERIFY", "CVERSION-RESULT", "CVERSION-REFRESH", "CVERSION-X", "CSNAPSHOT"],
             "stages": lock_stages("C13", 2500, 40000), "assumptions": LOCK_ASSUME},
 }
